@@ -519,6 +519,9 @@ def make_runner(cfg):
 
 def _explore_cfg(arg):
     cfg, bound, prefix = arg
+    if cfg == 'semlock-conformance':
+        from harness import envconf
+        return envconf.semlock_conformance(bound)
     st = explore.dfs(make_runner(cfg), bound, prefix=prefix or ())
     return st.as_dict()
 
@@ -636,6 +639,12 @@ def base_configs(tier):
                     continue
                 add(kind='joinable', maxsize=maxsize, prods=prods, cons=cons,
                     orig='p0', join=join)
+        # consumer calls task_done(), nobody joins (3 vthreads: cost model
+        # P reaches bound 2)
+        add(kind='joinable', maxsize=maxsize, prods=[_P('put', 2)],
+            cons=['get'], orig='p0', race=True)
+        add(kind='joinable', maxsize=maxsize, prods=[_P('put', 2, 0)],
+            cons=['get'], orig='c0', race=True)
         add(kind='joinable', maxsize=maxsize,
             prods=[_P('nb' if maxsize else 'put', 2)], cons=['to'],
             orig='j', join='after_put')
@@ -669,16 +678,20 @@ def passes(cfg, tier):
         cfg.get('orig') == 'p0' and cfg['kind'] != 'simple'
     out = []
     if tier == 'thorough':
-        out.append(('D', 3 if nvt <= 3 else 2))
-        if nvt <= 3:
+        out.append(('D', 3 if nvt <= 3 or (nvt == 4 and items <= 2) else 2))
+        if cfg['kind'] == 'simple' and nvt <= 4:
+            out.append(('P', 3 if nvt <= 3 else 2))
+        elif nvt <= 3:
             out.append(('P', 3 if smallest and cfg['maxsize'] in (0, 1)
                         else 2))
         elif nvt == 4 and items <= 2:
-            out.append(('P', 1))
+            out.append(('P', 2 if plain and cfg['maxsize'] == 1 and
+                        not cfg.get('join') else 1))
     else:
         out.append(('D', 2 if (nvt <= 4 and items <= 2) else 1))
         if nvt <= 3:
-            out.append(('P', 2 if items == 1 and plain else 1))
+            out.append(('P', 2 if (items == 1 and plain) or cfg.get('race')
+                        else 1))
     return out
 
 
@@ -727,7 +740,14 @@ def main(tier, seed, only=None):
             owner.append(i)
     idx = sorted(range(len(items)),
                  key=lambda k: _weight(cfgs[owner[k]]), reverse=True)
-    res = par.pmap('harness.c16:_explore_cfg', [items[k] for k in idx])
+    # the semaphore model the queues stand on is replayed against the real
+    # _multiprocessing.SemLock alongside (DESIGN.md section 3)
+    res = par.pmap('harness.c16:_explore_cfg',
+                   [('semlock-conformance', 3 if tier == 'quick' else 4,
+                     None)] + [items[k] for k in idx])
+    nconf, res = res[0], res[1:]
+    rep.part('semlock-conformance', validated=nconf, evaluations=nconf,
+             outcomes=['agree'])
     per_cfg = {}
     for i, d in pre.items():
         per_cfg.setdefault(i, []).append(d)
@@ -741,6 +761,11 @@ def main(tier, seed, only=None):
         st.__dict__.setdefault('configs', 0)
         st.configs += 1
         seen = False
+        for d in per_cfg[i][:1]:
+            for smp in d['samples'][:1]:
+                st.__dict__.setdefault('cases', []).append(
+                    dict(config=cfg, bound=bound, choices=smp['choices'],
+                         outcome=smp['outcome']))
         for d in per_cfg[i]:
             st.merge(d)
             for ch, msg in d['violations']:
@@ -750,6 +775,9 @@ def main(tier, seed, only=None):
                 seen = True
     for name in sorted(parts):
         st = parts[name]
+        cases = st.__dict__.get('cases', [])
+        random.Random(seed).shuffle(cases)
+        st.samples = cases[:3]
         rep.stats(name, st, configs=st.configs, bound=int(name[-1]),
                   cost_model={'P': 'preemptions+deviations',
                               'D': 'non-canonical scheduling choices'
